@@ -278,6 +278,13 @@ func (s *stream) IsOpen() bool {
 }
 
 func (s *stream) Rebalance() {
+	if s.balancing && s.rebalanceTimer == nil {
+		// the stream is being closed for a rebalance that is already under way: the reopen that
+		// follows reads the latest membership, a second close/reopen cycle would add nothing
+		logger.Log.Info("rebalance is already closing the stream")
+		return
+	}
+
 	if s.balancing && s.rebalanceTimer != nil {
 		// Is rebalance timer triggered already
 		if s.rebalanceTimer.Stop() {
@@ -320,6 +327,7 @@ func (s *stream) rebalance() {
 	s.metric.Rebalance++
 
 	logger.Log.Info("rebalance is finished")
+	s.rebalanceTimer = nil
 	s.balancing = false
 	s.eventHandler.AfterRebalanceEnd()
 }
